@@ -8,10 +8,9 @@ invariant, T1 anchor lines.
 from __future__ import annotations
 
 import itertools
-import random
 
-from rt import gen, hooks, impl, ref_jsonpath as ref
-from rt.jsonval import canon, h
+from rt import gen, hooks
+from rt.jp_oracle import check_query_case
 from rt.render import Renderer
 
 ID = "C01"
@@ -69,47 +68,7 @@ def install():
 
 
 def check_case(ctx, ast, doc, text, cls):
-    """One (query text, document) execution through the three observe points."""
-    import jsonpath
-
-    ctx.evaluation()
-    model = ref.eval_query(ast, doc)
-    case = {"class": cls, "ast": ast, "doc": doc, "text": text}
-    kinds = "+".join(sorted(ref.selector_kinds(ast)))
-    ctx.case(h(text, canon(doc)), nontrivial=bool(model) or cls in ("matrix", "names"))
-    hooks.STATE.h2_violations.clear()
-    comp = impl.call(jsonpath.compile, text)
-    if not comp.ok:
-        ctx.violation("legal-spelling-rejected:%s:%s" % (type(comp.exc).__name__, cls), case, {"error": comp.desc(), "text": text})
-        return
-    it = impl.call(lambda: impl.match_records(jsonpath.finditer(text, doc)))
-    if not it.ok:
-        ctx.violation("evaluation-raised:%s:%s" % (type(it.exc).__name__, it.site), case, {"error": it.desc(), "text": text})
-        return
-    diff = impl.nodes_equal(it.value, model)
-    if diff:
-        alt = ref.eval_query(ast, doc, order="bfs")
-        if "desc" in kinds and impl.nodes_equal(it.value, alt) is None:
-            ctx.count("alt_order_accepted")
-        else:
-            ctx.violation("nodelist-differs:%s:%s" % (diff.split(" ")[0] + ("" if not diff.startswith("node") else "-" + diff.split(" ")[2]), kinds), case,
-                          {"text": text, "diff": diff, "impl": impl.brief_impl(it.value), "model": impl.brief(model)})
-            return
-        model = alt
-    fa = impl.call(jsonpath.findall, text, doc)
-    if not fa.ok or impl.values_equal(fa.value, model):
-        ctx.violation("findall-differs:%s" % kinds, case, {"text": text, "diff": fa.desc() if not fa.ok else impl.values_equal(fa.value, model)})
-        return
-    cf = impl.call(lambda: comp.value.findall(doc))
-    if not cf.ok or impl.values_equal(cf.value, model):
-        ctx.violation("compiled-findall-differs:%s" % kinds, case, {"text": text, "diff": cf.desc() if not cf.ok else impl.values_equal(cf.value, model)})
-        return
-    if hooks.STATE.h2_violations:
-        ctx.violation("H2-local-location-invariant:%s" % kinds, case, {"text": text, "h2": list(hooks.STATE.h2_violations)})
-        return
-    if model:
-        ctx.count("cases_with_matches")
-    ctx.sample({"text": text, "doc": canon(doc)[:200], "nodelist": impl.brief(model)[:4], "class": cls}) if ctx.rng.random() < 0.002 or len(ctx.samples) < 2 else None
+    check_query_case(ctx, ast, doc, text, cls, nontrivial=True if cls in ("matrix", "names") else None)
 
 
 def run(spec, ctx):
